@@ -79,6 +79,10 @@ where
     if !rebuild then
       ⟨d, some (d.index == .opens .current)⟩
     else
+      -- the metadata stops vouching for the index before it is rewritten in place
+      let metaExists := d.md != .absent
+      let d := if metaExists then { d with md := .absent } else d
+      if metaExists && hit cp 5 then ⟨d, none⟩ else
       if hit cp 10 || hit cp 11 || hit cp 12 then ⟨d, none⟩ else   -- writer, delete_all, adds: uncommitted
       let d5 : Dir := { d with index := .opens .current }          -- commit
       if hit cp 13 || hit cp 14 || hit cp 15 then ⟨d5, none⟩ else
@@ -145,20 +149,63 @@ def damage (d : Dir) : Damage → Dir
   | .indexRemoved => { d with index := .absent }
   | .indexUnopenable => { d with index := .unopenable }
 
+/-! ### Another build on the same data directory
+
+A build of the SAME version that ships OTHER data (a development build, a packaged build with an
+updated database) runs the same code with the roles of the two data sets exchanged: what is
+"current" for it is "old" for the tool under test and the other way round. `flip` changes the
+point of view; a run of the other build is `run` between two flips. The metadata flag `hashOk`
+means "records MY data hash"; metadata recording neither hash looks foreign to both builds
+(`theirs = false`), metadata recording the other build's hash is `parsed v false` for the tool
+under test and current for the other build (`theirs = true`). -/
+
+def flipContent : Content → Content
+  | .current => .old
+  | .old => .current
+  | .empty => .empty
+
+def flipIndex : IndexSt → IndexSt
+  | .opens c => .opens (flipContent c)
+  | i => i
+
+/-- `theirs`: metadata that does not record my hash records the other build's. -/
+def flipMeta (theirs : Bool) : MetaSt → MetaSt
+  | .parsed v true => .parsed v false
+  | .parsed v false => .parsed v theirs
+  | m => m
+
+def flip (theirs : Bool) (d : Dir) : Dir := ⟨flipMeta theirs d.md, flipIndex d.index⟩
+
+/-- A start of the other build, killed at `cp` or complete, seen from the tool under test.
+Metadata the other build leaves untouched keeps its meaning; metadata it writes records ITS
+hash. -/
+def runOther (theirs : Bool) (d : Dir) (cp : Crash) : Dir :=
+  let d' := (run (flip theirs d) cp).dir
+  let md := if d'.md == flipMeta theirs d.md then d.md else flipMeta true d'.md
+  ⟨md, flipIndex d'.index⟩
+
 /-- One event in the life of the data directory. -/
 inductive Event
   | start (cp : Crash)       -- a start of the tool, killed at `cp` (or complete)
   | damaged (x : Damage)
+  | memSession               -- `Db::in_memory()` with this data directory: `open_inner(true)`
+  | foreign (theirs : Bool) (cp : Crash)   -- a start of ANOTHER build of the same version with other data
   deriving DecidableEq, Repr
+
+/-- `open_inner(true)`: the index lives in RAM and neither `meta.json` nor the index directory
+is read, removed, created or written; the session answers from the shipped data. -/
+def runMem (d : Dir) : Outcome := ⟨d, some true⟩
 
 def event (d : Dir) : Event → Dir
   | .start cp => (run d cp).dir
   | .damaged x => damage d x
+  | .memSession => (runMem d).dir
+  | .foreign t cp => runOther t d cp
 
 def history (d : Dir) (es : List Event) : Dir := es.foldl event d
 
 /-- The crash points the hooks define. -/
-def crashPoints : List Nat := [0, 1, 2, 3, 4, 10, 11, 12, 13, 14, 15, 16, 17]
+def crashPoints : List Nat := [0, 1, 2, 3, 4, 5, 10, 11, 12, 13, 14, 15, 16, 17]
 
 def MetaSt.show : MetaSt → String
   | .absent => "absent"
